@@ -21,7 +21,7 @@ CALLS = ["write", "writev", "close"]
 
 
 def plan(tier):
-    return {"n": 4 if tier == "quick" else 40, "floor": 40 if tier == "quick" else 600, "samples": 3}
+    return {"n": 4 if tier == "quick" else 16, "floor": 40 if tier == "quick" else 240, "samples": 3}
 
 
 def rule(tier):
